@@ -60,6 +60,8 @@ class Kinds:
                 idx = 2
             if idx < len(ps):
                 self.env[ps[idx]] = W
+        if name == "from_string" and f.cls is not None and "w" in ps:
+            self.env["w"] = W
         if name == "__init__" and f.cls is not None and f.cls.name == "Rule" and len(ps) > 1:
             self.env[ps[1]] = W
         if name == "update" and f.outer is not None and f.outer.name == "agenda" and len(ps) == 2:
@@ -236,6 +238,8 @@ class Kinds:
                 return W
             if bk == B:
                 return B if isinstance(e.slice, ast.Slice) else S
+            if bk == S and isinstance(e.slice, ast.Constant) and e.slice.value in (0, 1):
+                return S  # component of an (input, output) label pair
             # delta[i][a][j]
             if isinstance(e.value, ast.Subscript):
                 inner = self.elem_kind(e.value.value)
